@@ -69,6 +69,17 @@ Theorem C07_nothing_after_wait : forall qs s ls s',
 Proof. exact nothing_after_wait. Qed.
 Print Assumptions C07_nothing_after_wait.
 
+(** The empty lane (laneSize 0, a legal configuration): there is no goroutine, so Wait() returns at once - cancelled or
+    not - and whatever is called on it afterwards, nothing is ever started. (The harness scenario EmptyLane drives this
+    configuration; a lane whose Wait() hangs because "the last goroutine closes the channel" was a seeded regression.) *)
+Theorem C07_empty_lane : forall qs ls s',
+  all_dead (init 0) /\ (run qs (init 0) ls = Some s' -> started s' = [] /\ all_dead s').
+Proof.
+  intros qs ls s'. assert (H0 : all_dead (init 0)) by (apply Forall_nil).
+  split; [exact H0|]. intros Hr. exact (nothing_after_wait qs (init 0) ls s' H0 Hr).
+Qed.
+Print Assumptions C07_empty_lane.
+
 (** Non-vacuity: 2 lanes, queueSize 1; queue goroutine 0 holds task 10 (counted), 11 is buffered, producer 2 is
     blocked on the full lane, an observer is in the middle of Status(); then Cancel. *)
 Definition C07_ex : list label :=
